@@ -32,6 +32,11 @@ def _childpriv(c, priv, cc, depth, idx):
     return node_out(b.ChildKey(int(idx)))
 
 
+def _nodepath(c, priv, cc, depth, idx, fp, path):
+    kd = Bip32KeyData(Bip32Depth(int(depth)), Bip32KeyIndex(int(idx)), Bip32ChainCode(unhx(cc)), Bip32FingerPrint(unhx(fp)))
+    return node_out(CLS[c].FromPrivateKey(unhx(priv), kd).DerivePath(untx(path)))
+
+
 def _childpub(c, pub, cc, depth, idx):
     b = CLS[c].FromPublicKey(unhx(pub), Bip32KeyData(depth=int(depth), chain_code=unhx(cc)))
     return node_out(b.ChildKey(int(idx)))
@@ -82,6 +87,7 @@ IMPL = {
     "derive": _derive,
     "childpriv": _childpriv,
     "childpub": _childpub,
+    "nodepath": _nodepath,
     "serkey": _serkey,
     "deserkey": _deserkey,
     "fromxkey": _fromxkey,
